@@ -1,7 +1,8 @@
 """C04 — generic-interaction sampler: loop update, exit-leg heat bath, gate, offsets, pipeline."""
+from checks import kern
 from checks import full_step
 LEAN_TARGETS = ["drv_step", "QmcProofs.SamplerStep", "QmcProofs.SamplerCluster", "QmcProps.C04", "drv_c04", "QmcProps.C08", "drv_c08", "QmcProps.C02", "drv_c02"]
-BINS = ["fullstep", "c04", "c08", "c02"]
+BINS = ["fullstep", "c04", "c08", "c02", "kern"]
 
 # Theorems of other properties that C04's claim rests on: the generic sampler's timestep starts with the diagonal
 # update (C08: per-slot ratio, weight step, off-diagonal operators untouched, max-weight table) and, with
@@ -56,6 +57,7 @@ THEOREMS = [
     "offset_bookkeeping",
     "offset_variants",
     "energy_offset",
+    "measured_energy_offset",
     "timestep_order",
     "timestep_invariant",
     "free_refresh_spec",
@@ -116,6 +118,7 @@ def main(ck):
         ck.correspond("heatbath-table-invariant", "drv_c02", ck.harness("c02", ["tables"]))
         ck.correspond("heatbath-sampler-sweeps", "drv_c02", ck.harness("c02", ["sweeps"]))
         ck.correspond("heatbath-sampler-probabilities", "drv_c02", ck.harness("c02", ["prob"]))
+        kern.run(ck, "generic")   # exact one-step kernels of the real code on tiny systems: pi K = pi
     ck.notes.append("The kernel theorems and correspondence modes of C08 (diagonal update: slot ratio, weight step, off-diagonal "
                     "operators untouched, max-weight table) and C02 (heat-bath table validity and ratio) are re-audited / re-run here, "
                     "so that a change to the diagonal update (diagonal.rs / heatbath.rs) is reported against C04 as well.")
